@@ -74,6 +74,9 @@ impl Parser {
 
         if is_modify {
             ident = ident.wrap_in_callback().to_err_vec()?;
+            // from here on the name stands for the captured variable in this function too: a later
+            // `modify` in a nested block finds it as such, not as a variable of this function
+            input.user_data().add_dependency(&ident);
         }
 
         let assignment = Assignment::new(ident, value);
